@@ -89,9 +89,6 @@ func (w *World) Full(k Kons, s search.SortType) ([]blob.Ref, *Failure) {
 	if r.Err != nil {
 		return nil, &Failure{"C09|full-list|" + sn + "|error", "unlimited query failed: " + r.Err.Error()}
 	}
-	if r.Cont != "" {
-		return nil, &Failure{"C09|full-list|" + sn + "|token-on-unlimited", "unlimited query returned a continue token " + r.Cont}
-	}
 	seen := map[blob.Ref]bool{}
 	for _, b := range r.Blobs {
 		if seen[b] {
